@@ -1,20 +1,23 @@
 #!/bin/bash
 # usage: tools/confirm_seed.sh <seed-dir> <worktree>   — independently confirm a seeded change:
 #   (1) demo passes on clean HEAD, (2) demo fails with the patch, (3) existing suite passes with the patch.
-# The demo is a single *.rs file installed as <crate>/tests/<name>.rs (crate guessed from the README, default zlink-core).
+# The demo is a single *.rs file; where it is installed and how it is run is taken from the README's own
+# `cp ... <crate>/tests/` and `cargo test ... --test <name>` lines.
 set -u
 D=$1; W=$2
 cd "$W" || exit 2
 git checkout -q -- . && git clean -qfd
 DEMO=$(ls "$D"/*.rs | head -1); NAME=$(basename "$DEMO" .rs)
-CRATE=$(grep -o "cargo test -p [a-z-]*" "$D/README.md" | head -1 | awk '{print $4}'); CRATE=${CRATE:-zlink-core}
-FEAT=$(grep -o "cargo test -p [a-z-]* .*--test $NAME.*" "$D/README.md" | grep -o -- "--features [a-z,_-]*" | head -1)
-mkdir -p $CRATE/tests && cp "$DEMO" $CRATE/tests/
+DEST=$(grep -o "cp [^ ]*$NAME.rs [^ ]*" "$D/README.md" | head -1 | awk '{print $3}'); DEST=${DEST:-zlink-core/tests/}
+case "$DEST" in /*) DEST=${DEST#$W/}; DEST=${DEST#/tmp/wt-*/};; esac
+CMD=$(grep -o "cargo test [^\`]*--test $NAME[^\`]*" "$D/README.md" | head -1); CMD=${CMD:-cargo test -p zlink-core --offline --test $NAME}
+mkdir -p "$(dirname "$DEST/x")"
+case "$DEST" in *.rs) mkdir -p "$(dirname "$DEST")"; cp "$DEMO" "$DEST"; INST="$DEST";; *) mkdir -p "$DEST"; cp "$DEMO" "$DEST/"; INST="$DEST/$NAME.rs";; esac
 export CARGO_NET_OFFLINE=true
-cargo test -q -p $CRATE --offline $FEAT --test $NAME > "$D/confirm_demo_clean.log" 2>&1; A=$?
+$CMD > "$D/confirm_demo_clean.log" 2>&1; A=$?
 git apply "$D/patch.diff" || { echo "$D: PATCH DOES NOT APPLY"; exit 1; }
-cargo test -q -p $CRATE --offline $FEAT --test $NAME > "$D/confirm_demo_patched.log" 2>&1; B=$?
-rm -f $CRATE/tests/$NAME.rs
+$CMD > "$D/confirm_demo_patched.log" 2>&1; B=$?
+rm -f "$INST"
 cargo test -q --workspace --offline --no-fail-fast > "$D/confirm_suite_patched.log" 2>&1; C=$?
 git checkout -q -- . && git clean -qfd
-echo "$D: demo_clean_rc=$A demo_patched_rc=$B suite_patched_rc=$C  => $([ $A -eq 0 ] && [ $B -ne 0 ] && [ $C -eq 0 ] && echo CONFIRMED || echo NOT-CONFIRMED)"
+echo "$D: [$CMD] demo_clean_rc=$A demo_patched_rc=$B suite_patched_rc=$C  => $([ $A -eq 0 ] && [ $B -ne 0 ] && [ $C -eq 0 ] && echo CONFIRMED || echo NOT-CONFIRMED)"
